@@ -25,8 +25,9 @@ func H14a() {
 	vals := make([]int64, 0, m)
 	highest := mI(0)
 	for i := 0; i < m; i++ {
+		// a name is one of m letters or the zero-length string (drawn as the byte before 'a')
 		nb := symByte()
-		assume(nb >= 'a')
+		assume(nb >= 'a'-1)
 		assume(nb <= 'a'+byte(m)-1)
 		explicit := symBool()
 		dupName := false
@@ -35,17 +36,21 @@ func H14a() {
 		}
 		var err error
 		var want mInt
+		name := string([]byte{nb})
+		if nb == 'a'-1 {
+			name = ""
+		}
 		if explicit {
 			v := symI64()
 			want = mI(v)
-			err = e.Set(string([]byte{nb}), v)
+			err = e.Set(name, v)
 		} else {
 			if i == 0 {
 				want = mI(0)
 			} else {
 				want = mAdd(highest, mI(1))
 			}
-			err = e.SetNext(string([]byte{nb}))
+			err = e.SetNext(name)
 		}
 		dupVal := false
 		for _, o := range vals {
@@ -65,7 +70,7 @@ func H14a() {
 			return
 		}
 		check(symNot(bad), "duplicate name / duplicate enum value / out-of-range value / automatic value above the maximum is an error")
-		got, ok := e.ToInt[string([]byte{nb})]
+		got, ok := e.ToInt[name]
 		check(ok, "accepted member is recorded under its name")
 		check(mEq(mI(got), want), "member value: explicit value, else 0 for the first member, else highest so far + 1")
 		if i == 0 {
@@ -81,13 +86,17 @@ func H14a() {
 	nm, vm := e.NameMap(), e.ValueMap()
 	check(len(nm) == len(names), "name view has one entry per member")
 	for i, nb := range names {
-		v, ok := nm[string([]byte{nb})]
+		name := string([]byte{nb})
+		if nb == 'a'-1 {
+			name = ""
+		}
+		v, ok := nm[name]
 		check(ok, "name view holds every member")
 		check(v == vals[i], "name view holds the assigned value")
 		if !bits {
 			n2, ok2 := vm[vals[i]]
 			check(ok2, "value view holds every enum value")
-			check(n2 == string([]byte{nb}), "value view is the inverse of the name view")
+			check(n2 == name, "value view is the inverse of the name view")
 		}
 	}
 	if !bits {
